@@ -294,3 +294,152 @@ def controlflow(rng, underflow_p=0.0, symbolic_p=0.0, big_stack_p=0.0):
     return code, feats, canary_offsets
 
 
+
+
+def loopy(rng):
+    """Programs with arbitrary (backward and forward) jumps: self-loops, nested loops, jump tables, fork bombs,
+    stack-growing loops and gas burners. Not stack-safe on purpose (an underflow just ends a thread)."""
+    a = evm.Asm()
+    feats = set()
+    shape = rng.choice(["random", "random", "selfloop", "forkbomb", "nested", "growstack", "gasburn", "table", "fallthru2"])
+    feats.add("shape:" + shape)
+    cond = lambda: a.emit(rng.choice(["CALLVALUE", "CALLDATASIZE", ("push", 1, 1), ("push", 0, 1), "CALLER"]))
+    if shape == "selfloop":
+        a.label("L0")
+        for _ in range(rng.randint(0, 2)):
+            a.emit(rng.choice([1, 2, 3]), "POP")
+        if rng.random() < 0.5:
+            a.jump("L0")
+        else:
+            cond()
+            a.jumpi("L0")
+            a.emit(rng.choice(["STOP", "JUMPDEST"]))
+    elif shape == "forkbomb":
+        k = rng.randint(2, 14)
+        targets = rng.randint(1, 3)
+        for r in range(rng.randint(1, 3)):
+            for i in range(k):
+                cond()
+                a.jumpi("T%d" % rng.randrange(targets))
+        a.emit("STOP")
+        for t in range(targets):
+            a.label("T%d" % t)
+            for i in range(rng.randint(0, 4)):
+                cond()
+                a.jumpi("T%d" % rng.randrange(targets))
+            if rng.random() < 0.5:
+                a.emit(rng.randint(0, 5), "SLOAD", "POP")
+        a.emit("STOP")
+    elif shape == "nested":
+        a.label("OUT")
+        a.emit(rng.randint(0, 3), "SLOAD", "POP")
+        a.label("IN")
+        a.emit(rng.randint(0, 3), "SLOAD", rng.randint(0, 3), "SSTORE")
+        cond()
+        a.jumpi("IN")
+        cond()
+        a.jumpi("OUT")
+        a.emit("STOP")
+    elif shape == "growstack":
+        a.label("L0")
+        for _ in range(rng.randint(1, 4)):
+            a.emit(rng.choice([1, "CALLVALUE", "DUP1" if rng.random() < 0.3 else 7]))
+        if rng.random() < 0.5:
+            a.jump("L0")
+        else:
+            cond()
+            a.jumpi("L0")
+            a.emit("STOP")
+    elif shape == "gasburn":
+        a.label("L0")
+        for _ in range(rng.randint(1, 3)):
+            what = rng.choice(["sload", "log", "sstore", "create", "selfdestruct-branch", "exp"])
+            if what == "sload":
+                a.emit(rng.randint(0, 9), "SLOAD", "POP")
+            elif what == "log":
+                a.emit(0, 0, "LOG0")
+            elif what == "sstore":
+                a.emit(1, rng.randint(0, 9), "SSTORE")
+            elif what == "create":
+                a.emit(0, 0, 0, "CREATE", "POP")
+            elif what == "exp":
+                a.emit(3, "CALLVALUE", "EXP", "POP")
+            else:
+                cond()
+                a.jumpi("SD")
+        cond()
+        a.jumpi("L0")
+        a.emit("STOP")
+        a.label("SD")
+        a.emit("CALLER", "SELFDESTRUCT")
+    elif shape == "table":
+        k = rng.randint(2, 8)
+        for i in range(k):
+            a.emit("CALLVALUE", i, "EQ")
+            a.jumpi("C%d" % i)
+        a.emit("STOP")
+        for i in range(k):
+            a.label("C%d" % i)
+            a.emit(i, "SLOAD", "POP")
+            if rng.random() < 0.3:
+                a.jump("C%d" % rng.randrange(k))
+            elif rng.random() < 0.5:
+                a.emit("STOP")
+    elif shape == "fallthru2":
+        a.label("A")
+        a.label("B")
+        cond()
+        a.jumpi(rng.choice(["A", "B"]))
+        a.emit(0)
+        a.emit("JUMP") if rng.random() < 0.7 else a.jump("B")
+    else:
+        n = rng.randint(1, 6)
+        for i in range(n):
+            a.label("L%d" % i)
+            for _ in range(rng.randint(0, 4)):
+                r = rng.random()
+                if r < 0.3:
+                    a.emit(rng.randint(0, 300), "POP")
+                elif r < 0.5:
+                    a.emit(rng.randint(0, 5), "SLOAD", "POP")
+                elif r < 0.6:
+                    a.emit("CALLVALUE", rng.randint(0, 5), "SSTORE")
+                elif r < 0.7:
+                    a.emit(rng.choice([1, "CALLVALUE"]))
+                elif r < 0.8:
+                    a.emit(0, 32 * rng.randint(0, 3), "MSTORE")
+                else:
+                    a.emit("CALLVALUE", "CALLER", rng.choice(["ADD", "MUL", "AND"]), "POP")
+            r = rng.random()
+            if r < 0.45:
+                cond()
+                a.jumpi("L%d" % rng.randrange(n))
+            elif r < 0.65:
+                a.jump("L%d" % rng.randrange(n))
+            elif r < 0.8:
+                a.emit(rng.choice(["STOP", "INVALID"]))
+    return a.assemble(), feats
+
+
+def read_mask_write(rng):
+    """Storage read-mask-write programs over 2-3 slots: cyclic type evidence between slots."""
+    a = evm.Asm()
+    slots = [1, 2, 3][:rng.randint(2, 3)]
+    masks = [0xff, 0xffff, 0xffffffff, (1 << 160) - 1, (1 << 64) - 1, 0xff00, 0xffff0000, 1]
+    for _ in range(rng.randint(2, 7)):
+        r = rng.random()
+        src = rng.choice(slots)
+        dst = rng.choice(slots)
+        if r < 0.3:
+            a.emit(src, "SLOAD", rng.choice(masks), "AND", dst, "SSTORE")
+        elif r < 0.5:
+            a.emit("CALLVALUE", "ISZERO", dst, "SSTORE")
+        elif r < 0.75:
+            k = rng.choice([8, 16, 32, 160])
+            a.emit(src, "SLOAD", 1 << k, "MUL", rng.choice(slots), "SLOAD", "OR", rng.choice(masks), "AND", dst, "SSTORE")
+        elif r < 0.9:
+            k = rng.choice([8, 16, 32, 160])
+            a.emit(src, "SLOAD", k, "SHR", rng.choice(masks), "AND", dst, "SSTORE")
+        else:
+            a.emit(src, "SLOAD", dst, "SSTORE")
+    return a.assemble(), {"rmw"}
